@@ -30,14 +30,14 @@ SPECS = [
     S("variable:VarsManager.temp_params", ["params"], snapshot_exprs=[("{i: self.get(i, val_in_fit=False) for i in params.keys()}", "params")],
       restore_calls=[("self.set_all", "params")]),
     S("variable:VarsManager.mask_params", ["mask_vars"], snapshot_exprs=[("self.mask_vars", "mask_vars")], restore_assign=[("self.mask_vars", "mask_vars")]),
-    S("amp.amp:AbsPDF.temp_params", ["params"], snapshot_calls=[("self.get_params", "params")], restore_calls=[("self.set_params", "params")]),
+    S("amp.amp:AbsPDF.temp_params", ["params"], snapshot_calls=[("self.get_params()", "params")], restore_calls=[("self.set_params", "params")]),  # the snapshot must be ALL parameters: get_params() with no argument
     S("amp.amp:AbsPDF.mask_params", ["mask_vars"], cm_calls=[("self.vm.mask_params", ["mask_vars"])]),
     chains("amp.core:DecayGroup.temp_used_res"),
     chains("amp.amp:BaseAmplitudeModel.temp_used_res"),
     S("amp.amp:BaseAmplitudeModel.temp_total_gls_one", ["mask_factor"],
       snapshot_exprs=[("[getattr(i, 'mask_factor', False) for i in mask_part]", "mask_factor")], mutate_assign=[("i.mask_factor", "mask_factor")],
       restore_stmts=[("for i, j in zip(mask_part, old_mask):\n    i.mask_factor = j", "mask_factor", "old_mask")]),
-    S("config:temp_config", ["config"], snapshot_calls=[("get_config", "config")], restore_calls=[("set_config", "config")]),
+    S("config:temp_config", ["config"], snapshot_calls=[("get_config(name)", "config")], restore_calls=[("set_config", "config")]),
     S("amp.core:variable_scope", ["config"], cm_calls=[("temp_config", ["config"])]),
     S("amp.core:DecayChain.factor_iteration", ["mask_vars"], cm_calls=[("self.total.vm.mask_params", ["mask_vars"])]),
     # ---- derived computations
